@@ -76,6 +76,7 @@ type rsScenario struct {
 	Always    bool
 	Timeout   bool // ResponseTimeout configured
 	CallerIDs bool // publishes carry caller-provided identifiers
+	CapQoS    int  // 0: the broker grants what was requested; 1,2: it grants min(requested, CapQoS-1) in SUBACK
 	Phases    []rsPhase
 	Faults    []rsFault
 	Note      string
@@ -394,8 +395,14 @@ func (b *rsBroker) onWrite(c *memConn, pkt []byte) error {
 	case 0x80:
 		var codes []byte
 		for _, s := range subs {
+			// the table records what was REQUESTED (the property compares requested QoS); the SUBACK may
+			// grant less: nothing the client sends later may depend on the granted codes
 			b.subs[s.Topic] = s.QoS
-			codes = append(codes, s.QoS)
+			g := s.QoS
+			if b.sc.CapQoS > 0 && int(g) > b.sc.CapQoS-1 {
+				g = byte(b.sc.CapQoS - 1)
+			}
+			codes = append(codes, g)
 		}
 		resp = append([]byte{0x90, byte(2 + len(codes)), byte(id >> 8), byte(id)}, codes...)
 		final = true
@@ -784,7 +791,7 @@ func (sc *rsScenario) describe() map[string]interface{} {
 		fs = append(fs, fmt.Sprintf("conn%d#%d:%s", f.Conn, f.Idx, rsFaultName[f.Kind]))
 	}
 	return map[string]interface{}{"methodB": sc.MethodB, "alwaysResubscribe": sc.Always, "responseTimeout": sc.Timeout,
-		"callerIDs": sc.CallerIDs, "phases": phs, "faults": fs, "note": sc.Note}
+		"callerIDs": sc.CallerIDs, "brokerGrantsAtMostQoS": sc.CapQoS - 1, "phases": phs, "faults": fs, "note": sc.Note}
 }
 
 func rsDescOps(ops []rsOp) string {
@@ -892,6 +899,9 @@ func rsPacketsBound(ops []rsOp) int {
 func (g *rsGen) scenario(w [5]int, silent, keepSession bool) *rsScenario {
 	r := g.r
 	sc := &rsScenario{MethodB: r.Intn(2) == 0, Always: r.Intn(4) == 0, CallerIDs: r.Intn(2) == 0}
+	if r.Intn(3) == 0 {
+		sc.CapQoS = 1 + r.Intn(2) // broker grants at most QoS 0 or 1
+	}
 	if silent {
 		sc.Timeout = true
 	} else {
@@ -1045,6 +1055,13 @@ func rsCorpus() []*rsScenario {
 		{Attempts: []rsAttempt{acc(true)}, IdleCut: true},
 		{Attempts: []rsAttempt{acc(true)}}},
 		Faults: []rsFault{{0, 2, fLostAfter}, {1, 1, fWriteFail}}})
+	// a broker that grants less than requested: re-subscription still asks for the requested QoS
+	out = append(out, &rsScenario{Note: "broker grants at most QoS 1; session lost; re-subscription asks for the requested QoS", CapQoS: 2, Phases: []rsPhase{
+		{Attempts: []rsAttempt{acc(false)}, Ops: []rsOp{rsS(1, rsSub{"a", 2}, rsSub{"b", 1})}, IdleCut: true},
+		{Attempts: []rsAttempt{acc(false)}}}})
+	out = append(out, &rsScenario{Note: "broker grants QoS 0 only; AlwaysResubscribe", CapQoS: 1, Always: true, Phases: []rsPhase{
+		{Attempts: []rsAttempt{acc(false)}, Ops: []rsOp{rsS(1, rsSub{"a", 2}), rsS(2, rsSub{"b", 1}, rsSub{"a", 1})}, IdleCut: true},
+		{Attempts: []rsAttempt{acc(true)}}}})
 	// F9: retransmission whose acknowledgement is silently dropped (ResponseTimeout configured)
 	out = append(out, &rsScenario{Note: "F9 timeout applies to retransmissions", Timeout: true, Phases: []rsPhase{
 		{Attempts: []rsAttempt{acc(false)}, Ops: []rsOp{rsP(1, 1)}, IdleCut: true},
